@@ -16,7 +16,7 @@ TIERS = {
     "quick": {"runs": 80, "max_ops": 16, "cold_refs": 2, "selftest": 6},
     "thorough": {"runs": 4000, "max_ops": 18, "cold_refs": 50, "selftest": 64},
 }
-LIB_OPS = ("SETUP", "COMPUTE", "REPEAT", "REWRITE", "BADDATA")
+LIB_OPS = ("SETUP", "COMPUTE", "REPEAT", "REWRITE", "BADDATA", "SWEEP")
 
 
 # ------------------------------------------------------------------ evaluation of one history
@@ -213,6 +213,12 @@ def _simplifications(op):
         out.append({k: v for k, v in op.items() if k != "abort"})
     if "iofault" in op:
         out.append({k: v for k, v in op.items() if k != "iofault"})
+    if "listfault" in op:
+        out.append({k: v for k, v in op.items() if k != "listfault"})
+    if op.get("um_fail"):
+        out.append({k: v for k, v in op.items() if k != "um_fail"})
+    if op.get("agg"):
+        out.append({k: v for k, v in op.items() if k != "agg"})
     if op["op"] == "COMPUTE":
         if op.get("targets") != "default":
             out.append({**op, "targets": "default"})
@@ -444,9 +450,17 @@ def _account(stats, r, i):
         stats["status"][ev["status"]] = stats["status"].get(ev["status"], 0) + 1
         if "date" in op:
             stats["dates"].add(op["date"])
-        for fk in ("abort", "iofault"):
+        sw = (ev.get("faults") or {}).get("abort_sweep")
+        if sw:
+            nm = "abort_sweep_" + sw["what"]
+            stats["faults_armed"][nm] = stats["faults_armed"].get(nm, 0) + sw["armed"]
+            stats["faults_fired"][nm] = stats["faults_fired"].get(nm, 0) + sw["fired"]
+            stats["line_events"] += sw["lines_executed"]
+            if sw["fired"]:
+                fired_sig.append(f"{len(kinds) - 1}:{nm}")
+        for fk in ("abort", "iofault", "listfault"):
             if fk in op:
-                name = fk if fk == "abort" else "read_" + op["iofault"]["kind"]
+                name = fk if fk == "abort" else "read_" + op["iofault"]["kind"] if fk == "iofault" else op["listfault"]["kind"]
                 stats["faults_armed"][name] = stats["faults_armed"].get(name, 0) + 1
                 f = (ev.get("faults") or {}).get(fk) or {}
                 if fk == "abort":
